@@ -34,6 +34,8 @@ type Pred struct {
 	ExitKnown  bool
 	States     map[string]*spec.TState
 	Order      []string
+	// TimeoutPossible: some selected target is set up to overrun its timeout attribute
+	TimeoutPossible bool
 }
 
 // SelectionFor computes the set of targets a `grog build <patterns>` run from the workspace
@@ -162,6 +164,9 @@ func (e *Env) Predict(sel map[string]bool, cfg BuildCfg) (*Pred, error) {
 				}
 			}
 		}
+		if t.SleepIf != "" && e.markerOn(t.SleepIf) && t.Timeout != "" {
+			p.TimeoutPossible = true
+		}
 		p.WillFail[l] = willFail
 		forced, why := false, ""
 		switch {
@@ -286,6 +291,12 @@ func (e *Env) Judge(p *Pred, o *Obs, cfg BuildCfg, extCause string) []Violation 
 		}
 		vs = append(vs, Violation{k, k + " " + hangSite(o.Res.Dump), "grog did not exit within the cap"})
 		return vs
+	}
+	if !p.TimeoutPossible && strings.Contains(o.Res.Stdout+o.Res.Stderr, "timeout after ") {
+		// A `timeout` attribute is a wall-clock deadline: on a loaded machine a command that
+		// normally takes milliseconds can overrun it. That says nothing about the property;
+		// the caller abandons the history (and reports inconclusive if it happens often).
+		return []Violation{{"load-timeout", "load-timeout", "a command without an injected delay overran its timeout attribute (machine load)"}}
 	}
 	for _, a := range o.Anom {
 		vs = append(vs, Violation{"anomaly", "helper-anomaly " + strings.Fields(a)[len(strings.Fields(a))-1], "command helper anomaly: " + a})
@@ -606,6 +617,17 @@ func (e *Env) depRelation(l string, st *spec.TState) string {
 func (e *Env) anyUnsure(deps []string) bool {
 	for _, d := range deps {
 		if e.Unsure[d] {
+			return true
+		}
+	}
+	return false
+}
+
+// LoadTimeout reports whether a judgement was abandoned because a command without an injected
+// delay overran its timeout attribute.
+func LoadTimeout(vs []Violation) bool {
+	for _, v := range vs {
+		if v.Kind == "load-timeout" {
 			return true
 		}
 	}
